@@ -240,3 +240,171 @@ theorem forward_out_settled (net : Net W) (tgt : Option Nat) (cut : Option W) :
             simp [stops, hc, hlt]
           exact not_lt.1 this
 end TV.Graph
+
+/-! ### construction: `addNode` / `addEdge` and the loop over `NEXT_EDGES` -/
+namespace TV.GraphExt
+open TV.Graph
+section construction
+variable {W : Type}
+
+theorem addNode_edges {P : Type} (nb : NetObj W P) (id : Nat) (c : P) :
+    (addNode nb id c).edges = nb.edges ∧ (addNode nb id c).next = nb.next := by
+  unfold addNode; split <;> exact ⟨rfl, rfl⟩
+
+theorem addEdge_edges {P : Type} (nb : NetObj W P) (e : Edge W) (sc tc : P) :
+    (addEdge nb e sc tc).edges = nb.edges ++ [e] := by
+  have hn : (addNode (addNode nb e.src sc) e.tgt tc).edges = nb.edges := by
+    rw [(addNode_edges _ _ _).1, (addNode_edges _ _ _).1]
+  unfold addEdge
+  simp only []
+  generalize addNode (addNode nb e.src sc) e.tgt tc = nb' at hn ⊢
+  by_cases ha : 0 ≤ e.ori <;> by_cases hb : e.ori ≤ 0 <;> simp [ha, hb, hn]
+
+theorem addEdge_next {P : Type} (nb : NetObj W P) (e : Edge W) (sc tc : P) (u : Nat) :
+    (addEdge nb e sc tc).next u = nb.next u ++ nextOf e u := by
+  have hn : (addNode (addNode nb e.src sc) e.tgt tc).next = nb.next := by
+    rw [(addNode_edges _ _ _).2, (addNode_edges _ _ _).2]
+  unfold addEdge nextOf
+  simp only []
+  generalize addNode (addNode nb e.src sc) e.tgt tc = nb' at hn ⊢
+  have e1 : (u = e.src) = (e.src = u) := propext eq_comm
+  have e2 : (u = e.tgt) = (e.tgt = u) := propext eq_comm
+  by_cases ha : 0 ≤ e.ori <;> by_cases hb : e.ori ≤ 0 <;> by_cases hs : e.src = u <;> by_cases ht : e.tgt = u <;>
+    simp [ha, hb, hs, ht, hn, e1, e2]
+
+theorem build_spec {P : Type} (es : List (Edge W × P × P)) : ∀ (nb : NetObj W P),
+    (build nb es).edges = nb.edges ++ es.map (·.1) ∧
+    ∀ u, (build nb es).next u = nb.next u ++ (es.map (·.1)).flatMap (fun e => nextOf e u) := by
+  induction es with
+  | nil => intro nb; simp [build]
+  | cons x r ih =>
+    intro nb
+    obtain ⟨e, sc, tc⟩ := x
+    obtain ⟨h1, h2⟩ := ih (addEdge nb e sc tc)
+    refine ⟨by simp [build, h1, addEdge_edges], fun u => ?_⟩
+    simp [build, h2, addEdge_next, List.append_assoc]
+
+
+theorem addNode_posOf {P : Type} (nb : NetObj W P) (id : Nat) (c : P) (v : Nat) (p : P) (h : posOf nb v = some p) :
+    posOf (addNode nb id c) v = some p := by
+  unfold addNode
+  split
+  · exact h
+  · unfold posOf at h ⊢
+    simp only [Option.map_eq_some_iff] at h ⊢
+    obtain ⟨q, hq, rfl⟩ := h
+    exact ⟨q, by rw [List.find?_append, hq]; rfl, rfl⟩
+
+theorem addNode_registers {P : Type} (nb : NetObj W P) (id : Nat) (c : P) : ∃ p, posOf (addNode nb id c) id = some p := by
+  unfold addNode
+  split
+  · rename_i h
+    obtain ⟨q, hq, hid⟩ := List.any_eq_true.1 h
+    unfold posOf
+    cases hf : nb.nodes.find? (fun p => p.1 == id) with
+    | none => exact absurd hid (by simpa using List.find?_eq_none.1 hf q hq)
+    | some r => exact ⟨r.2, rfl⟩
+  · rename_i h
+    unfold posOf
+    have hn : nb.nodes.find? (fun p => p.1 == id) = none := by
+      rw [List.find?_eq_none]
+      intro q hq hid
+      exact h (List.any_eq_true.2 ⟨q, hq, hid⟩)
+    exact ⟨c, by simp [List.find?_append, hn]⟩
+
+theorem addEdge_posOf {P : Type} (nb : NetObj W P) (e : Edge W) (sc tc : P) (v : Nat) (p : P) (h : posOf nb v = some p) :
+    posOf (addEdge nb e sc tc) v = some p := by
+  have h2 := addNode_posOf (addNode nb e.src sc) e.tgt tc v p (addNode_posOf nb e.src sc v p h)
+  unfold addEdge
+  simp only []
+  generalize addNode (addNode nb e.src sc) e.tgt tc = nb' at h2 ⊢
+  unfold posOf at h2 ⊢
+  by_cases ha : 0 ≤ e.ori <;> by_cases hb : e.ori ≤ 0 <;> simp [ha, hb, h2]
+
+theorem build_posOf {P : Type} (es : List (Edge W × P × P)) : ∀ (nb : NetObj W P) (v : Nat) (p : P),
+    posOf nb v = some p → posOf (build nb es) v = some p := by
+  induction es with
+  | nil => intro nb v p h; exact h
+  | cons x r ih =>
+    intro nb v p h
+    obtain ⟨e, sc, tc⟩ := x
+    exact ih _ v p (addEdge_posOf nb e sc tc v p h)
+
+variable [LT W] [DecidableLT W] [Add W]
+
+theorem relaxOne_vis (u : Nat) (du : W) (st : St W) (e : Edge W) : (relaxOne u du st e).vis = st.vis := by
+  unfold relaxOne
+  simp only []
+  split
+  · rfl
+  · split
+    · rfl
+    · split <;> rfl
+
+theorem relaxOne_loop (u : Nat) (du : W) (st : St W) (e : Edge W) (hv : st.vis u = true) (hs : e.src = u) (ht : e.tgt = u) :
+    relaxOne u du st e = st := by
+  have : other e u = u := by unfold other; rw [if_pos ht, hs]
+  unfold relaxOne
+  simp only [this, hv, if_true]
+
+/-- the relaxation loop over `NEXT_EDGES[u]` as `addEdge` fills it = the loop over the model's `nextEdges net u` (each
+permitted edge once): the second visit of a two-way self-loop finds `fils = pere`, which is marked `visite` -/
+theorem pyNext_fold (net : Net W) (u : Nat) (du : W) : ∀ (st : St W), st.vis u = true →
+    (pyNext net u).foldl (relaxOne u du) st = (nextEdges net u).foldl (relaxOne u du) st := by
+  unfold pyNext nextEdges
+  induction net.edges with
+  | nil => intro st _; rfl
+  | cons e es ih =>
+    intro st hv
+    rw [List.flatMap_cons, List.foldl_append, List.filter_cons]
+    by_cases ha : 0 ≤ e.ori ∧ e.src = u <;> by_cases hb : e.ori ≤ 0 ∧ e.tgt = u
+    · have hf : (decide (0 ≤ e.ori) && decide (e.src = u) || decide (e.ori ≤ 0) && decide (e.tgt = u)) = true := by simp [ha.1, ha.2]
+      rw [hf, if_pos rfl, if_pos ha, if_pos hb]
+      have hv1 : (relaxOne u du st e).vis u = true := by rw [relaxOne_vis]; exact hv
+      simp only [List.cons_append, List.nil_append, List.foldl_cons, List.foldl_nil]
+      rw [relaxOne_loop u du (relaxOne u du st e) e hv1 ha.2 hb.2]
+      exact ih _ hv1
+    · have hf : (decide (0 ≤ e.ori) && decide (e.src = u) || decide (e.ori ≤ 0) && decide (e.tgt = u)) = true := by simp [ha.1, ha.2]
+      rw [hf, if_pos rfl, if_pos ha, if_neg hb]
+      have hv1 : (relaxOne u du st e).vis u = true := by rw [relaxOne_vis]; exact hv
+      simp only [List.append_nil, List.foldl_cons, List.foldl_nil]
+      exact ih _ hv1
+    · have hf : (decide (0 ≤ e.ori) && decide (e.src = u) || decide (e.ori ≤ 0) && decide (e.tgt = u)) = true := by simp [hb.1, hb.2]
+      rw [hf, if_pos rfl, if_neg ha, if_pos hb]
+      have hv1 : (relaxOne u du st e).vis u = true := by rw [relaxOne_vis]; exact hv
+      simp only [List.nil_append, List.foldl_cons, List.foldl_nil]
+      exact ih _ hv1
+    · have hf : (decide (0 ≤ e.ori) && decide (e.src = u) || decide (e.ori ≤ 0) && decide (e.tgt = u)) = false := by
+        rw [Bool.eq_false_iff]; intro h
+        simp only [Bool.or_eq_true, Bool.and_eq_true, decide_eq_true_eq] at h
+        rcases h with h | h
+        · exact ha h
+        · exact hb h
+      rw [hf, if_neg ha, if_neg hb]
+      simp only [List.append_nil, List.foldl_nil, Bool.false_eq_true, if_false]
+      exact ih _ hv
+
+
+
+end construction
+
+section lookup
+variable {W : Type} [AddCommMonoid W] [LinearOrder W] [IsOrderedAddMonoid W]
+
+/-- looking the ids of `NEXT_EDGES[u]` up in `EDGES` (a dict keyed by unique edge ids) gives back the edges -/
+theorem lookup_next (net : Net W) (hu : UniqueIds net) (u : Nat) : ∀ (l : List (Edge W)), (∀ e ∈ l, e ∈ net.edges) →
+    (l.flatMap (fun e => nextOf e u)).filterMap (findEdge net) =
+      l.flatMap (fun e => (if 0 ≤ e.ori ∧ e.src = u then [e] else []) ++ (if e.ori ≤ 0 ∧ e.tgt = u then [e] else [])) := by
+  intro l
+  induction l with
+  | nil => intro _; rfl
+  | cons e r ih =>
+    intro h
+    have he : findEdge net e.id = some e := findEdge_of_mem net hu e (h e (List.mem_cons_self))
+    rw [List.flatMap_cons, List.flatMap_cons, List.filterMap_append, ih (fun x hx => h x (List.mem_cons_of_mem _ hx))]
+    congr 1
+    unfold nextOf
+    by_cases ha : 0 ≤ e.ori ∧ e.src = u <;> by_cases hb : e.ori ≤ 0 ∧ e.tgt = u <;> simp [ha, hb, he]
+
+end lookup
+end TV.GraphExt
